@@ -28,7 +28,7 @@ fn c16_streamid_fields() {
     kani::cover!(v % 4 == 3 && v < TWO62);
 }
 
-// vp: props=C16,C08,C06; tag=C16.streamid.add; kind=complete; tier=quick
+// vp: props=C16,C08,C06,C14; tag=C16.streamid.add; kind=complete; tier=quick
 // advancing by n requests saturates at the largest valid id of the same kind; no overflow for any usize
 #[kani::proof]
 fn c16_streamid_add_saturates() {
